@@ -1,19 +1,20 @@
-\* C06 thorough (safety): 3 nodes, 2 ids, clock 0..1, 3 CAS, 1 fault.
+\* C06 thorough (safety): 3 nodes, 2 ids, clock 0..1, no tombstone collection, 2 CAS, 1 fault (partition or restart;
+\* garbage and blocking watchers are covered by the 2-node configurations).
 CONSTANTS
   N = 3
   NI = 2
   MaxClock = 1
   Retention = 0
   T = 1
-  MaxCas = 3
+  MaxCas = 2
   MaxFaults = 1
   LiveStates = {"ACTIVE"}
   WatchNodes = {1, 2, 3}
-  HoldNodes = {1}
+  HoldNodes = {}
   AllowRestart = TRUE
-  AllowGarbage = TRUE
+  AllowGarbage = FALSE
   AllowPartition = TRUE
-  AllowJunkPP = TRUE
+  AllowJunkPP = FALSE
   ConsumeNet = FALSE
   Ideal = TRUE
   Ghost = TRUE
